@@ -223,11 +223,12 @@ CTrIo ==
              \* DOT dump: the same function boxes as the Rust dump of the same (function, name)
              \* pairs: labels in order, and boxes point to the same node exactly when they do there
              O(P, "capi.mirror.labels:" \o Rec[l].what,
-               (Has(Rec[l], "c_labels") /\ Rec[l].c_ok /\ Rec[l].r_ok /\ ~Tiny) =>
+               (Has(Rec[l], "c_labels") /\ Rec[l].c_ok /\ Rec[l].r_ok) =>
                  LET c == Rec[l].c_labels r == Rec[l].r_labels IN
                  /\ Len(c) = Len(r)
                  /\ \A i \in 1 .. Len(c) : c[i][1] = r[i][1]
-                 /\ \A i, j \in 1 .. Len(c) : (c[i][2] = c[j][2]) <=> (r[i][2] = r[j][2])) >>)
+                 \* (in a manager that ran out of memory the two sides may hold different diagrams)
+                 /\ Tiny \/ \A i, j \in 1 .. Len(c) : (c[i][2] = c[j][2]) <=> (r[i][2] = r[j][2])) >>)
   /\ UNCHANGED <<kind, n, l2v, hs, gcN, roN, aux, cx>>
 
 (* ---- observations through the C interface (eval, node_count, satisfiable,
